@@ -1,3 +1,4 @@
+use crate::seq;
 use crate::soft::{self, Info, X};
 use rayon::prelude::*;
 use rlib_f80::f80;
@@ -9,7 +10,7 @@ use vcore::{catch, json, quiet_panics, Args, Run, Value, Violation};
 // access to the real type
 // ---------------------------------------------------------------------------------------------------
 
-fn bytes_of(x: f80) -> [u8; 10] {
+pub(crate) fn bytes_of(x: f80) -> [u8; 10] {
     // f80 is #[repr(align(16))] around a private [u8; 10] at offset 0
     unsafe { std::mem::transmute_copy::<f80, [u8; 10]>(&x) }
 }
@@ -61,44 +62,44 @@ fn control_word_ok(cw: u16) -> bool {
 /// An operand: either an f64 bit pattern (first level: enters through the real `From<f64>`) or the ten
 /// bytes of an f80 value the real code produced earlier (second level).
 #[derive(Clone, Copy, Debug, PartialEq, Eq, Hash)]
-enum Opd {
+pub(crate) enum Opd {
     F64(u64),
     Raw([u8; 10]),
 }
 
 impl Opd {
-    fn real(&self) -> f80 {
+    pub(crate) fn real(&self) -> f80 {
         match *self {
             Opd::F64(b) => f80::from(f64::from_bits(b)),
             Opd::Raw(b) => f80_from_bytes(b),
         }
     }
-    fn model(&self) -> X {
+    pub(crate) fn model(&self) -> X {
         match *self {
             Opd::F64(b) => soft::from_f64(f64::from_bits(b)),
             Opd::Raw(b) => soft::decode80(&b),
         }
     }
     /// compact, deterministic text used in signatures
-    fn sig(&self) -> String {
+    pub(crate) fn sig(&self) -> String {
         match *self {
             Opd::F64(b) => format!("f64:0x{b:016x}"),
             Opd::Raw(b) => format!("f80:{}", hex80(&b)),
         }
     }
-    fn describe(&self) -> String {
+    pub(crate) fn describe(&self) -> String {
         match *self {
             Opd::F64(b) => format!("{} = {:e} = {}", self.sig(), f64::from_bits(b), soft::show(self.model())),
             Opd::Raw(_) => format!("{} = {}", self.sig(), soft::show(self.model())),
         }
     }
-    fn to_json(&self) -> Value {
+    pub(crate) fn to_json(&self) -> Value {
         match *self {
             Opd::F64(b) => json!({ "f64": format!("0x{b:016x}") }),
             Opd::Raw(b) => json!({ "f80": hex80(&b) }),
         }
     }
-    fn from_json(v: &Value) -> Result<Opd, String> {
+    pub(crate) fn from_json(v: &Value) -> Result<Opd, String> {
         if let Some(s) = v.get("f64").and_then(|s| s.as_str()) {
             let s = s.trim_start_matches("0x");
             return u64::from_str_radix(s, 16).map(Opd::F64).map_err(|e| format!("bad f64 operand: {e}"));
@@ -133,7 +134,7 @@ fn parse_hex80(s: &str) -> Result<[u8; 10], String> {
 // ---------------------------------------------------------------------------------------------------
 
 #[derive(Clone, Copy, Debug, PartialEq, Eq)]
-enum Op {
+pub(crate) enum Op {
     Add,
     Sub,
     Mul,
@@ -209,7 +210,7 @@ impl Op {
     fn idx(self) -> usize {
         ALL_OPS.iter().position(|&o| o == self).unwrap()
     }
-    fn name(self) -> &'static str {
+    pub(crate) fn name(self) -> &'static str {
         match self {
             Op::Add => "add",
             Op::Sub => "sub",
@@ -235,14 +236,14 @@ impl Op {
             Op::Roundtrip => "f64_roundtrip",
         }
     }
-    fn from_name(s: &str) -> Option<Op> {
+    pub(crate) fn from_name(s: &str) -> Option<Op> {
         ALL_OPS.iter().copied().find(|o| o.name() == s)
     }
     fn binary(self) -> bool {
         BIN_OPS.contains(&self)
     }
     /// the underlying arithmetic operation of an arithmetic / assigning form
-    fn arith_base(self) -> Option<Op> {
+    pub(crate) fn arith_base(self) -> Option<Op> {
         match self {
             Op::Add | Op::AddAssign => Some(Op::Add),
             Op::Sub | Op::SubAssign => Some(Op::Sub),
@@ -318,7 +319,7 @@ struct Outcome {
     rel: Option<Option<Ordering>>,
 }
 
-fn model_arith(base: Op, a: X, b: X, info: &mut Info) -> X {
+pub(crate) fn model_arith(base: Op, a: X, b: X, info: &mut Info) -> X {
     match base {
         Op::Add => soft::add(a, b, info),
         Op::Sub => soft::sub(a, b, info),
@@ -535,14 +536,11 @@ fn summary(op: Op, a: &Opd, b: &Opd, o: &Outcome, panic_msg: &Option<String>) ->
     }
 }
 
-/// Plain re-execution of one recorded case.
-fn confirm(v: &Value) -> Result<(), String> {
-    let op = v["op"].as_str().and_then(Op::from_name).ok_or_else(|| format!("replay: unknown op in {v}"))?;
-    let a = Opd::from_json(&v["a"])?;
-    let b = if op.binary() { Opd::from_json(&v["b"])? } else { a };
-    // The call is repeated on a fresh thread: f80 operations must be pure, but a defect that leaks x87
-    // register-stack slots (or any other per-thread state) only shows after some calls on one thread.
-    // A fresh thread starts from a clean FPU state, so the two confirming runs see the same thing.
+/// Run `f` on a fresh thread that starts from the architectural x87 state, after the library's f80_init().
+/// f80 operations must be pure, but a defect that leaks x87 register-stack slots (or any other per-thread
+/// state) only shows after some calls on one thread; a fresh thread starts from a clean FPU state, so the two
+/// confirming runs see the same thing.
+fn on_fresh_thread(f: impl FnOnce() -> Result<(), String> + Send + 'static) -> Result<(), String> {
     std::thread::spawn(move || {
         // a new thread inherits the x87 control word of the thread that spawned it, and that one has
         // already run the library's f80_init(): start from the architectural default (fninit: 64-bit
@@ -555,6 +553,31 @@ fn confirm(v: &Value) -> Result<(), String> {
             std::process::exit(2);
         }
         rlib_f80::f80_init();
+        f()
+    })
+    .join()
+    .unwrap_or_else(|_| Err("replay thread panicked".to_string()))
+}
+
+/// Plain re-execution of one recorded case.
+fn confirm(v: &Value) -> Result<(), String> {
+    if v["kind"] == "dependent_sequence" {
+        let case = seq::Case::from_json(v)?;
+        // the loop is the same #[inline(never)] function the enumeration called: same machine code
+        return on_fresh_thread(move || {
+            for rep in 0..16 {
+                let o = seq::check_case(&case);
+                if o.verdict == seq::Verdict::Fail {
+                    return Err(if rep == 0 { o.summary } else { format!("{} [on repetition {rep} on one fresh thread: the result depends on earlier f80 calls]", o.summary) });
+                }
+            }
+            Ok(())
+        });
+    }
+    let op = v["op"].as_str().and_then(Op::from_name).ok_or_else(|| format!("replay: unknown op in {v}"))?;
+    let a = Opd::from_json(&v["a"])?;
+    let b = if op.binary() { Opd::from_json(&v["b"])? } else { a };
+    on_fresh_thread(move || {
         for rep in 0..16 {
             let (o, pm) = check_caught(op, &a, &b);
             if let Verdict::Fail = o.verdict {
@@ -576,8 +599,6 @@ fn confirm(v: &Value) -> Result<(), String> {
         }
         Ok(())
     })
-    .join()
-    .unwrap_or_else(|_| Err("replay thread panicked".to_string()))
 }
 
 // ---------------------------------------------------------------------------------------------------
@@ -1003,6 +1024,15 @@ pub fn main() {
     acc.merge(l1.acc.clone());
     acc.merge(l2.acc.clone());
 
+    // ---- dependent sequences: one variable compared, updated in place, compared again (see seq.rs)
+    // on every ordered pair of B, and on every ordered pair of every fourth level-2 operand (full-width values
+    // from the start)
+    let mut sq = seq::run(1, &bo);
+    let so4: Vec<Opd> = so.iter().copied().step_by(4).collect();
+    let sq2 = seq::run(2, &so4);
+    let (sq_pairs_b, sq_pairs_2) = (sq.pairs, sq2.pairs);
+    sq.merge(sq2);
+
     // informational only: a change here would be the doing of the code under test (and would show as arithmetic
     // violations), so it is not turned into a machinery failure
     let after: Vec<u16> = rayon::broadcast(|_| control_word());
@@ -1010,11 +1040,12 @@ pub fn main() {
 
     // ---- coverage
     let evaluations: u64 = acc.evals.iter().sum();
+    let evaluations = evaluations + sq.sequences;
     run.cov("evaluations", evaluations);
     run.cov("distinct_nontrivial", acc.c[C_DISTINCT]);
     run.cov(
         "rule",
-        "level 1: every unary operation (from_f64, f64->f80->f64, neg, abs, f80->f64) on every member and every binary operation (add sub mul div, the four assigning forms, min max, lt le gt ge eq partial_cmp, eq-vs-partial_cmp) on every ORDERED pair of the boundary set B of f64 bit patterns; level 2: the same (without from_f64 / roundtrip) on every ordered pair of a fixed subset of the level-1 arithmetic results (duplicates removed, 4/5 of them not representable in f64; taken from the model, which level 1 shows to equal the real results); every arithmetic result is additionally converted to f64. A case is counted in distinct_nontrivial when it is an arithmetic case (operation, operand pair — distinct by construction; level-2 pairs whose operands both coincide with B members are left out) whose exact result is NOT representable with a 64-bit significand, i.e. the rounding logic decided the answer.",
+        "level 1: every unary operation (from_f64, f64->f80->f64, neg, abs, f80->f64) on every member and every binary operation (add sub mul div, the four assigning forms, min max, lt le gt ge eq partial_cmp, eq-vs-partial_cmp) on every ORDERED pair of the boundary set B of f64 bit patterns; level 2: the same (without from_f64 / roundtrip) on every ordered pair of a fixed subset of the level-1 arithmetic results (duplicates removed, 4/5 of them not representable in f64; taken from the model, which level 1 shows to equal the real results); every arithmetic result is additionally converted to f64; dependent sequences: for every ordered pair (a, step) of B and of every fourth level-2 operand, every assigning operator (+= -= *= /=), every distinct value lim of the model's sequence x_0 = a, x_{i+1} = x_i op step (i < 4) and every relation (lt le gt ge eq partial_cmp), ONE local variable x is compared with lim, updated in place and compared again, in five loop shapes (for with a run-time bound, written out, iterator fold, `while x R lim && n < 4`, `if x R lim { update }` in a for loop) compiled with optimisation and without any barrier between the iterations; the result codes / the number of updates and the final x are compared with the model running the same sequence (one evaluation per loop). A case is counted in distinct_nontrivial when it is an arithmetic case (operation, operand pair — distinct by construction; level-2 pairs whose operands both coincide with B members are left out) whose exact result is NOT representable with a 64-bit significand, i.e. the rounding logic decided the answer.",
     );
     run.cov("exhaustive", true);
     run.cov("boundary_set_size", b.len() as u64);
@@ -1031,7 +1062,7 @@ pub fn main() {
         }
         run.cov(&format!("{lname}_counters"), Value::Object(m));
     }
-    run.cov("skipped_out_of_domain", acc.c[C_SKIP_DOMAIN]);
+    run.cov("skipped_out_of_domain", acc.c[C_SKIP_DOMAIN] + sq.skipped_out_of_domain);
     run.cov("skipped_minmax_nan_operand", acc.c[C_SKIP_MINMAX]);
     let mut fam = serde_json::Map::new();
     for f in 0..NFAM {
@@ -1039,7 +1070,28 @@ pub fn main() {
             fam.insert(fam_name(f), json!({"checked": acc.evals[f], "failed": acc.fails[f], "skipped_no_requirement": acc.skips[f]}));
         }
     }
+    for rel in seq::RELS {
+        let f = seq::RELS.iter().position(|&r| r == rel).unwrap();
+        fam.insert(rel.family(), json!({"checked": sq.checked[f], "failed": sq.failed[f], "skipped_no_requirement": sq.skipped[f]}));
+    }
     run.cov("families", Value::Object(fam));
+    run.cov(
+        "dependent_sequences",
+        json!({
+            "operand_pairs_of_B": sq_pairs_b,
+            "operand_pairs_of_every_fourth_level2_operand": sq_pairs_2,
+            "limits_tried_(distinct_values_of_the_sequence)": sq.limits,
+            "loops_checked": sq.sequences,
+            "loops_checked_per_form": seq::FORMS.iter().enumerate().map(|(i, f)| (f.name().to_string(), json!(sq.per_form[i]))).collect::<serde_json::Map<_, _>>(),
+            "comparisons_judged": sq.comparisons,
+            "loops_where_the_answer_changes_along_the_sequence": sq.answer_changes,
+            "the_same_per_form": seq::FORMS.iter().enumerate().map(|(i, f)| (f.name().to_string(), json!(sq.answer_changes_per_form[i]))).collect::<serde_json::Map<_, _>>(),
+            "sequences_cut_short_by_an_out_of_domain_result": sq.truncated_by_domain,
+            "loops_skipped_out_of_domain": sq.skipped_out_of_domain,
+            "loops_failed_per_form": seq::FORMS.iter().enumerate().map(|(i, f)| (f.name().to_string(), json!(sq.failed_per_form[i]))).collect::<serde_json::Map<_, _>>(),
+            "updates_per_sequence": seq::K,
+        }),
+    );
 
     // ---- non-vacuity self-checks
     let need = |run: &Run, ok: bool, what: &str| {
@@ -1069,6 +1121,10 @@ pub fn main() {
     need(&run, acc.c[C_TOF_SUB] > 0 && acc.c[C_TOF_OVF] > 0, "f80->f64 never produced a subnormal or overflowed to infinity");
     need(&run, acc.c[C_NANRES] > 0 && acc.c[C_INFRES] > 0 && acc.c[C_ZERORES] > 0, "arithmetic never produced NaN / infinity / zero");
     need(&run, acc.c[C_WIDE] > 1000, "no arithmetic case had an operand with a full 64-bit significand");
+    need(&run, sq_pairs_b == (b.len() * b.len()) as u64 && sq_pairs_2 == (so4.len() * so4.len()) as u64, "the dependent-sequence family did not visit every (a, step) pair");
+    need(&run, sq.per_form.iter().all(|&c| c > 100_000), "some loop shape of the dependent-sequence family was hardly run");
+    need(&run, sq.answer_changes_per_form.iter().all(|&c| c > 10_000), "in some loop shape the compared answer (almost) never changes along the sequence: reusing a stale comparison would go unnoticed");
+    need(&run, (0..6).all(|f| sq.checked[f] > 100_000), "some relation of the dependent-sequence family was hardly run");
     // arithmetic self-check of the precision control, done by the ENGINE's own x87 instructions (not by the code
     // under test): 1 + 2^-63 must be representable, i.e. differ from 1
     need(&run, hardware_one_plus_2_pow_minus_63() == [1, 0, 0, 0, 0, 0, 0, 0x80, 0xff, 0x3f], "1 + 2^-63 computed on the x87 is not 0x3fff_8000000000000001: not a 64-bit significand");
@@ -1088,6 +1144,20 @@ pub fn main() {
         }));
     }
 
+    for k in 0..3usize {
+        let i = (seed.wrapping_mul(5).wrapping_add(17 * k + 1)) % bo.len();
+        let j = (seed.wrapping_mul(3).wrapping_add(23 * k + 2)) % bo.len();
+        let (rel, form, op) = (seq::RELS[(seed + k) % 6], seq::FORMS[(seed + 2 * k) % 5], seq::ASSIGN_OPS[(seed + k) % 4]);
+        // the limit: the value after two updates when the model has one, else the start value
+        let two = (0..2).fold(Some(bo[i].model()), |x, _| {
+            let mut info = Info::default();
+            let y = model_arith(op.arith_base().unwrap(), x?, bo[j].model(), &mut info);
+            (!info.overflow && !info.denormal).then_some(y)
+        });
+        let lim = two.map_or(bo[i], |x| Opd::Raw(encode80(x)));
+        run.sample(seq::sample_json(&seq::Case { form, rel, op, a: bo[i], step: bo[j], lim }));
+    }
+
     // ---- violations: the first failing case of every family
     for f in 0..NFAM {
         if let Some(r) = &acc.first[f] {
@@ -1096,13 +1166,19 @@ pub fn main() {
             run.violation(Violation::new(sig, summary, case_json(f, r.op, &r.a, &r.b)));
         }
     }
+    for r in sq.first.iter().flatten() {
+        let f = seq::RELS.iter().position(|&x| x == r.case.rel).unwrap();
+        let summary = format!("{} ({} of {} checked loops of this family fail)", r.summary, sq.failed[f], sq.checked[f]);
+        run.violation(Violation::new(r.case.signature(), summary, r.case.to_json()));
+    }
     run.assume("the ten bytes at offset 0 of an f80 value are its x87 double-extended encoding (read with transmute_copy)");
     run.assume("second-level operands are the first-level results in canonical x87 encoding as computed by the model; level 1 checks that the real code produces exactly these values (counter arith_results_passing_but_not_canonical_bytes = 0 means: the very same bytes), so the subset and the level-2 signatures do not move when the code under test is changed");
+    run.assume("dependent sequences: the loops are compiled into the engine with its release profile (opt-level 3); a comparison or operator that promises the compiler too much (inline assembly marked pure / nomem, missing clobbers) is caught only if the optimiser of the installed tool chain exploits it in one of the five loop shapes — the family shows that these shapes compute what the model computes, it does not prove that no other shape is miscompiled");
     run.finish(&confirm)
 }
 
 /// Canonical ten-byte x87 encoding of a model value (NaN: the x87 default "real indefinite").
-fn encode80(x: X) -> [u8; 10] {
+pub(crate) fn encode80(x: X) -> [u8; 10] {
     let (se, sig): (u16, u64) = match x {
         X::Nan => (0xffff, 0xc000_0000_0000_0000),
         X::Inf(s) => (((s as u16) << 15) | 0x7fff, 1u64 << 63),
